@@ -60,6 +60,14 @@ JS_CLASSES = {
               "go:cat:" + hx(TAILU[:20]) + "+" + hx(TAILU[20:])]),
     "badutf": ("s:fffd" + u16("a" * 20), None, ["go:str:ff" + hx("a" * 20), "go:str:fe" + hx("a" * 20),
                js('"\\ufffd"+"a".repeat(20)')]),
+    # surrogates: lone high, high-high-low adjacency, a pair assembled across a concatenation boundary
+    "lonehi": ("s:d800", "*", [js('"\\ud800"'), js("String.fromCharCode(0xd800)"), "go:u16:d800", js('"\\ud800\\udc00".slice(0,1)'),
+               js('"\\ud800\\udc00".charAt(0)')]),
+    "hhl": ("s:d800d800dc00", "*", [js('"\\ud800\\ud800\\udc00"'), js("String.fromCharCode(0xd800,0xd800,0xdc00)"),
+            "go:u16:d800d800dc00", js('"\\ud800"+"\\ud800\\udc00"'), js('"\\ud800\\ud800"+"\\udc00"'),
+            js('"\\ud800"+String.fromCodePoint(0x10000)')]),
+    "pairsplit": ("s:d83dde00", None, [js('"\\ud83d\\ude00"'), js('"\\ud83d"+"\\ude00"'), js("String.fromCodePoint(0x1f600)"),
+                  "go:str:f09f9880", "go:u16:d83dde00", js('"x\\ud83d\\ude00".slice(1)'), js('["\\ud83d","\\ude00"].join("")')]),
     "empty": ("s:", None, [js('""'), "go:str:", js('"a".slice(1)'), js("String()")]),
     "strone": ("s:0031", None, [js('"1"'), js("String(1)"), js("(1).toString()"), "go:str:31"]),
     "true": ("b:1", None, [js("true"), js("!0"), js("1==1")]),
@@ -208,7 +216,7 @@ def gen_ops(rng, mode, npool, maxlen=40):
                 else:
                     ops.append("z")
             else:
-                vs = {"raw": "R", "sym": "RAKOPTD", "map": "RAKGM", "set": "RAKGMS"}[mode]
+                vs = {"raw": "R", "sym": "RAKOPTD", "map": "RAKGMFW", "set": "RAKGMSFW"}[mode]
                 ops.append("e" + rng.choice(vs))
     return ops
 
@@ -319,7 +327,7 @@ def oracle(case, ops=None, assign_live=False):
                     out.append(("ok", None))
             elif c == "e":
                 out.append(("[" + "|".join(ent(i) for i in range(len(data)) if data[i][0] is not None) + "]",
-                            {"G": "G", "S": "G", "M": "M"}.get(rest)))
+                            {"G": "G", "S": "G", "M": "M", "F": "TF", "W": "TW"}.get(rest)))
             else:
                 out.append(("err:op", None))
         except (ValueError, IndexError):
@@ -331,6 +339,20 @@ def expected_impl_token(case, tok, kind):
     """What the harness should print (after canon->K mapping) for oracle token `tok` produced by an iterator of `kind`."""
     if kind is None or tok in ("done",) or tok.startswith("err"):
         return tok
+    if kind in ("TF", "TW"):
+        # typed Go container: defined only when every live key is a number (F) / a string (W)
+        pre = "n:" if kind == "TF" else "s:"
+        items = tok[1:-1].split("|") if tok != "[]" else []
+        outi = []
+        for it in items:
+            k, v = it.split(":")
+            g = case.gcanon_of_rep[int(k[1:])]
+            if not g.startswith(pre):
+                return None
+            outi.append(g + ":" + v)
+        if case.mode == "map":
+            return "{" + "|".join(sorted(outi)) + "}"
+        return "[" + "|".join(outi) + "]"
     if kind == "M":
         # Go map: order lost, keys must have distinct primitive Go images, else the comparison is skipped (None)
         items = tok[1:-1].split("|") if tok != "[]" else []
@@ -494,10 +516,10 @@ def judge(case, impl_line, ops=None, assign_live=False):
     for i in range(len(ops)):
         want = expected_impl_token(case, exp[i][0], exp[i][1])
         got = map_keys(case, res[i]) if i < len(res) else "<missing>"
-        if exp[i][1] == "M":
+        if exp[i][1] in ("M", "TF", "TW"):
             got = res[i] if i < len(res) else "<missing>"
             if want is None:
-                if got.startswith(("{", "exc:")):
+                if got.startswith(("{", "[", "exc:")):
                     continue
                 want = "{...}"
         if exp[i][1] == "G":
@@ -551,6 +573,19 @@ def shrink_and_report(ctx, h, case, bad):
                    "observed": [map_keys(case, r) for r in split_out(out, len(ops))[0]] if not out.startswith("CRASH") else out})
 
 
+def tie_diff():
+    """Names of the pinned Go functions whose regenerated source differs from the text the model was transcribed from."""
+    pat = re.compile(r'\("((?:[^"\\]|\\.)*)",\s*"((?:[^"\\]|\\.)*)"\)')
+    def pairs(path):
+        try:
+            return dict(pat.findall(open(path).read()))
+        except OSError:
+            return {}
+    g = pairs(os.path.join(LEAN, "GojaModel", "Generated", "C18_MapGo.lean"))
+    e = pairs(os.path.join(LEAN, "GojaModel", "C18", "Tie.lean"))
+    return sorted(k for k in set(g) | set(e) if g.get(k) != e.get(k))
+
+
 def corpus_cases():
     d = os.path.join(ROOT, "corpus", "C18")
     out = []
@@ -563,12 +598,35 @@ def corpus_cases():
     return out
 
 
-N_THEOREMS = 16
+N_THEOREMS = 24
+
+
+def lake_build_retry(ctx, targets):
+    """lake build; a failure that names no C18 source file (build-lock contention with another property's check, a
+    dependency being rebuilt) is retried once after a pause instead of being reported."""
+    import time
+    n_obl, n_br = len(ctx.obligations), len(ctx.broken)
+    ok, errs = ctx.lake_build(targets)
+    if not ok and not any("C18" in (e.get("file") or "") for e in errs):
+        del ctx.obligations[n_obl:]
+        del ctx.broken[n_br:]
+        time.sleep(30)
+        ok, errs = ctx.lake_build(targets)
+    return ok, errs
 
 
 def main(ctx):
     quick = ctx.tier == "quick"
-    ok, errs = ctx.lake_build(["GojaModel.C18.Props", "model_c18"])
+    ok, errs = lake_build_retry(ctx, ["GojaModel.C18.Props", "model_c18"])
+    # tie to the Go text: regenerate the canonical source of the transcribed functions and compare inside Lean
+    if ctx.regen():
+        tok, terrs = lake_build_retry(ctx, ["GojaModel.C18.Tie"])
+        if tok:
+            ctx.audit("GojaModel.C18.Tie", expect_min=1)
+        else:
+            changed = tie_diff()
+            ctx.stats["tie_changed_functions"] = changed
+            ctx.log("tie broken; transcribed Go functions whose source changed:", ", ".join(changed) or "?")
     if ok:
         ctx.audit("GojaModel.C18.Props", expect_min=N_THEOREMS)
         if not quick:
@@ -661,8 +719,6 @@ def main(ctx):
             exp = oracle(case)
             for oi in range(len(ops)):
                 e = exp[oi][0]
-                if exp[oi][1] == "a":
-                    continue          # Object.assign has snapshot semantics: not an orderedMap iterator of the Lean models
                 if oi >= len(mres) or mres[oi] != e or msres[oi] != e:
                     if not (e.startswith("err") and oi < len(mres) and mres[oi].startswith("err")):
                         n_spec_bad += 1
